@@ -34,6 +34,8 @@ def pself : TPat → List Obl
   | .wild _ => []
   | .lit k ty => [.rel k ty]
   | .tuple ps ty => .same ty (.tuple (ptysOf ps)) :: pselfL ps
+  -- a constructor pattern: its sub-patterns (their tie to the constructor's parameter types is not stated yet)
+  | .constr ps _ => pselfL ps
 def pselfL : List TPat → List Obl
   | [] => []
   | p :: ps => pself p ++ pselfL ps
@@ -45,6 +47,7 @@ def plink : TPat → Ty → Obl
   | .wild ty, vty => .rel ty vty
   | .lit k _, vty => .rel k vty
   | .tuple _ ty, vty => .rel ty vty
+  | .constr _ ty, vty => .rel ty vty
 
 def pobls (p : TPat) (vty : Ty) : List Obl := pself p ++ [plink p vty]
 
@@ -193,6 +196,7 @@ def bindersA : List TArm → List (Nat × Ty)
 def pbinders : TPat → List (Nat × Ty)
   | .var x ty => [(x, ty)]
   | .tuple ps _ => pbindersL ps
+  | .constr ps _ => pbindersL ps
   | _ => []
 def pbindersL : List TPat → List (Nat × Ty)
   | [] => []
